@@ -313,7 +313,9 @@ class _Shared:
         return self
 
 
-class Thread(_Shared):
+class Thread:
+    role = None
+
     _n = itertools.count()
 
     def __init__(self, group=None, target=None, name=None, args=(), kwargs=None, *, daemon=None):
